@@ -2,6 +2,6 @@ SPECIFICATION SpecSim
 CONSTANTS
   Day = 24
   Gaps <- GapsSimDeep
-  Horizon = 480
+  Horizon = 960
   GenLen = 40
 INVARIANTS EmitSim
